@@ -447,6 +447,45 @@ func RunProperty(repo, verifDir, prop, tier string, seed int) int {
 	if total == 0 {
 		faults = append(faults, "no obligations generated for "+prop)
 	}
+	// reachability guard: every postcondition / lemma assertion that was
+	// generated (and discharged) on the unchanged tree must be generated again -
+	// an obligation that silently disappears (all paths to it cut or made
+	// infeasible) would otherwise count as "nothing failed"
+	expDir := filepath.Join(verifDir, "expected")
+	if _, err := os.Stat(expDir); err != nil {
+		if exe, err2 := os.Executable(); err2 == nil {
+			expDir = filepath.Join(filepath.Dir(filepath.Dir(exe)), "expected")
+		}
+	}
+	expFile := filepath.Join(expDir, prop+"."+tier+".txt")
+	if os.Getenv("GVC_WRITE_EXPECTED") != "" {
+		var names []string
+		for _, n := range order {
+			o := obls[n]
+			if belongs(o) && (o.Kind == "post" || o.Kind == "lemma") {
+				names = append(names, n)
+			}
+		}
+		sort.Strings(names)
+		os.MkdirAll(filepath.Join(verifDir, "expected"), 0o755)
+		os.WriteFile(filepath.Join(verifDir, "expected", prop+"."+tier+".txt"), []byte(strings.Join(names, "\n")+"\n"), 0o644)
+	} else if eb, err := os.ReadFile(expFile); err == nil {
+		missing := 0
+		for _, n := range strings.Split(string(eb), "\n") {
+			if n == "" {
+				continue
+			}
+			if o, ok := obls[n]; !ok || o.Instances == 0 {
+				missing++
+				if missing <= 5 {
+					faults = append(faults, "expected obligation was not generated (unreachable on this tree?): "+n)
+				}
+			}
+		}
+		if missing > 5 {
+			faults = append(faults, fmt.Sprintf("... and %d more expected obligations not generated", missing-5))
+		}
+	}
 	_ = boundedN
 
 	trusted := append([]string(nil), baseTrusted...)
